@@ -2,6 +2,7 @@ package main
 
 import (
 	"fmt"
+	"os"
 	"regexp"
 	"runtime/debug"
 	"strings"
@@ -49,7 +50,16 @@ var unaryNames = map[string]string{"SELECT": "select", "MAP": "map", "FILTER": "
 var nullaryNames = map[string]string{"LENGTH": "length", "KEYS": "keys", "REVERSE": "reverse", "UNIQUE": "unique", "ANY": "any", "ALL": "all",
 	"TO_ENTRIES": "to_entries", "FROM_ENTRIES": "from_entries", "NOT": "not", "SORT": "sort", "MIN": "min", "MAX": "max",
 	"GET_PATH": "path", "GET_KEY": "key", "GET_PARENT": "parent",
-	"GET_TAG": "tag", "GET_KIND": "kind", "TO_STRING": "to_string", "TO_NUMBER": "to_number", "PIVOT": "pivot"}
+	"GET_TAG": "tag", "GET_KIND": "kind", "TO_STRING": "to_string", "TO_NUMBER": "to_number", "PIVOT": "pivot",
+	"TRIM": "trim", "IS_KEY": "is_key", "GET_DOCUMENT_INDEX": "document_index", "GET_FILE_INDEX": "file_index", "GET_ANCHOR": "anchor"}
+
+// the environment of Eval.tla's EnvTable ("vu" stays unset)
+func init() {
+	os.Setenv("va", "a")
+	os.Setenv("vn", "2")
+	os.Setenv("vt", "true")
+	os.Unsetenv("vu")
+}
 var binaryNames = map[string]string{"PIPE": "|", "SHORT_PIPE": "|", "UNION": ",", "ADD": "+", "SUBTRACT": "-", "MULTIPLY": "*", "DIVIDE": "/",
 	"MODULO": "%", "EQUALS": "==", "NOT_EQUALS": "!=", "AND": "and", "OR": "or", "ALTERNATIVE": "//",
 	"ADD_ASSIGN": "+=", "SUBTRACT_ASSIGN": "-=", "MULTIPLY_ASSIGN": "*="}
@@ -127,6 +137,16 @@ func exprText(e M) string {
 			sym = "|="
 		}
 		return "(" + exprText(sub(e, "l")) + " " + sym + " " + exprText(sub(e, "r")) + ")"
+	case "CHANGE_CASE":
+		if u, _ := e["upper"].(bool); u {
+			return "upcase"
+		}
+		return "downcase"
+	case "ENV":
+		if st, _ := e["str"].(bool); st {
+			return "strenv(" + e["name"].(string) + ")"
+		}
+		return "env(" + e["name"].(string) + ")"
 	case "SET_PATH":
 		return "setpath(" + exprText(sub(e, "l")) + "; " + exprText(sub(e, "r")) + ")"
 	case "REDUCE":
